@@ -21,6 +21,7 @@ def handle (line : String) : String :=
   | ["recompress", p, c] => recompressLine (unhex p) (unhex c)
   | "inrange" :: rest => inRangeLine rest
   | "chk" :: rest => chkLine rest
+  | "policy" :: rest => policyLine rest
   | "analyze" :: rest => analyzeLine rest
   | "analyzefull" :: rest => analyzeFullLine rest
   | "codec" :: ops => (match parseOps ops with | some o => codecLine o | none => "bad-request")
